@@ -155,7 +155,7 @@ def load_findings(pid):
 
 
 def finding_matches(finding, v):
-    if finding.get("clause") != v.get("clause"):
+    if finding.get("clause") not in ("*", v.get("clause")):
         return False
     facts = v.get("facts", {})
     for k, want in finding.get("facts", {}).items():
